@@ -212,6 +212,27 @@ Arguments Unexpected {A} what.
 Definition unseen {A} (s : seen A) : option (res A) :=
   match s with Seen r => Some r | Unexpected _ => None end.
 
+(* a Read Device Identification response on the wire is self-consistent: after the six header bytes
+   (MEI type, read code, conformity, more follows, next object id, NUMBER OF OBJECTS) exactly that many
+   objects (id, length, length bytes) follow and nothing else (v1.1b3 section 6.21) *)
+Fixpoint mei_objs_ok (fuel : nat) (n : N) (bs : bytes) : bool :=
+  match fuel with
+  | O => false
+  | S fuel' =>
+      match bs with
+      | [] => N.eqb n 0
+      | _ :: len :: rest =>
+          negb (N.eqb n 0) && Nat.leb (N.to_nat len) (length rest) &&
+          mei_objs_ok fuel' (n - 1) (skipn (N.to_nat len) rest)
+      | _ => false
+      end
+  end.
+Definition mei_wire_ok (pdu : bytes) : bool :=
+  match pdu with
+  | 43%N :: 14%N :: _ :: _ :: _ :: _ :: n :: objs => mei_objs_ok (S (length objs)) n objs
+  | _ => false
+  end.
+
 (* ---- C01: encode ---------------------------------------------------------------------- *)
 (* case = (object, what bytes([m.function_code]) + m.encode() returned) *)
 Definition chk_enc_r (c : obj * res bytes) : bool * bool :=
@@ -227,7 +248,11 @@ Definition chk_enc_r (c : obj * res bytes) : bool * bool :=
    | None =>
        (* no single spec message stands for this object (e.g. a device-identification response that must be
           paged): whatever is emitted is still a PDU, and a PDU has at most 253 bytes (v1.1b3 section 4.1) *)
-       match obs with Ok b => Nat.leb (length b) 253 | Raise _ => true end
+       match obs with
+       | Ok b => Nat.leb (length b) 253 &&
+                 match o with OMeiRsp _ _ _ _ _ _ _ _ => mei_wire_ok b | _ => true end
+       | Raise _ => true
+       end
    end).
 
 (* ---- attributes that [abs] does not look at but that decode() takes from the wire ----------------
@@ -352,7 +377,11 @@ Definition chk_rt_r (c : bool * obj * res bytes * res bytes * res obj * res byte
    end,
    match e1 with
    | Ok b =>
-       if paged o || negb (rt_domain o) then true else
+       if paged o then
+         (* a response that does not fit one PDU: what was emitted is ONE page; decoding that page and
+            encoding it again must give the page back (the page itself is a message that fits) *)
+         match d1 with Ok _ => rbytes_eqb e3 e1 | Raise _ => false end
+       else if negb (rt_domain o) then true else
        rbytes_eqb e2 e1 &&                                         (* encode is pure *)
        match d1 with
        | Ok o' => obj_match o o' &&                                (* decode . encode = id *)
